@@ -22,7 +22,14 @@ type YieldPolicy struct {
 	counts map[int]int64
 	hist   [1024]int64 // site histogram (atomic)
 	wireN  int64
+
+	holdSite int
+	holdCh   chan struct{}
+	held     int64
 }
+
+// Held returns how many goroutines were parked at a Hold gate so far.
+func (p *YieldPolicy) Held() int64 { return atomic.LoadInt64(&p.held) }
 
 func mix(x uint64) uint64 {
 	x += 0x9e3779b97f4a7c15
@@ -70,10 +77,42 @@ func (p *YieldPolicy) decide(site int, n int64) {
 	}
 }
 
+// Hold arms a one-shot gate: the next goroutine that reaches the given site
+// parks there until the returned function is called (a long pre-emption at a
+// point where the goroutine holds no lock).  Calling the function also
+// disarms a gate nobody reached.
+func (p *YieldPolicy) Hold(site int) (release func()) {
+	ch := make(chan struct{})
+	p.mu.Lock()
+	p.holdSite, p.holdCh = site, ch
+	p.mu.Unlock()
+	var once sync.Once
+	return func() {
+		once.Do(func() {
+			p.mu.Lock()
+			if p.holdCh == ch {
+				p.holdCh = nil
+			}
+			p.mu.Unlock()
+			close(ch)
+		})
+	}
+}
+
 // Site is the verifhook callback.
 func (p *YieldPolicy) Site(site int) {
 	if site >= 0 && site < len(p.hist) {
 		atomic.AddInt64(&p.hist[site], 1)
+	}
+	p.mu.Lock()
+	if p.holdCh != nil && p.holdSite == site {
+		ch := p.holdCh
+		p.holdCh = nil
+		p.mu.Unlock()
+		atomic.AddInt64(&p.held, 1)
+		<-ch
+	} else {
+		p.mu.Unlock()
 	}
 	p.mu.Lock()
 	p.counts[site]++
